@@ -5,7 +5,8 @@ import warnings
 import numpy as np
 
 SHAPE = (30, 36)
-SRC = [(9.0, 8.0, 60.0, 1.8, 1.4), (22.0, 12.0, 90.0, 1.5, 1.5), (14.0, 21.0, 40.0, 2.2, 1.6), (29.0, 23.0, 75.0, 1.6, 2.0)]
+SRC = [(9.0, 8.0, 60.0, 1.8, 1.4), (22.0, 12.0, 90.0, 1.5, 1.5), (14.0, 21.0, 40.0, 2.2, 1.6), (29.0, 23.0, 75.0, 1.6, 2.0),
+       (26.5, 15.0, 60.0, 1.3, 1.3)]        # the last one blends with the second (so that deblending has something to split); not in _positions()
 
 
 def base_scene(seed=0, integer=True):
@@ -35,7 +36,7 @@ def _segm(inp):
 
 
 def _positions():
-    return [(c[0], c[1]) for c in SRC]
+    return [(c[0], c[1]) for c in SRC[:4]]
 
 
 def _strip(v):
